@@ -152,12 +152,12 @@ theorem dhpProbe_some (ws mm e1 e2 : Nat) (back : Bool) (d : Hash2) (p : List By
 /-! ### BUP -/
 
 /-- the running best candidate of the bucket scan: nothing yet, or a verified candidate -/
-def ScanInv (p : List Byte) (i ws o k : Nat) : Prop :=
+def BupScanInv (p : List Byte) (i ws o k : Nat) : Prop :=
   (o = 0 ∧ k = 0) ∨ ∃ j, j < i ∧ i - j ≤ ws ∧ o = i - j ∧ k = lcpLen (p.drop j) (p.drop i)
 
 theorem bupScan_inv (bk : BucketT) (p : List Byte) (i ws v base : Nat) :
-    ∀ (slots : List Nat) (o k : Nat), ScanInv p i ws o k →
-      ScanInv p i ws (bupScan bk p i ws v base slots o k).1 (bupScan bk p i ws v base slots o k).2 := by
+    ∀ (slots : List Nat) (o k : Nat), BupScanInv p i ws o k →
+      BupScanInv p i ws (bupScan bk p i ws v base slots o k).1 (bupScan bk p i ws v base slots o k).2 := by
   intro slots
   induction slots with
   | nil => intro o k h; simpa [bupScan] using h
